@@ -447,7 +447,9 @@ class WSGITask(Task):
             if isinstance(app_iter, ReadOnlyFileBasedBuffer):
                 cl = self.content_length
                 size = app_iter.prepare(cl)
-                if size:
+                # a 1xx, 204 or 304 response has no message body: leave the
+                # file to the generic path below, which discards the data
+                if size and self.has_body:
                     if cl != size:
                         if cl is not None:
                             self.remove_content_length_header()
